@@ -4,39 +4,66 @@ Correspondence: real `make_release` (seeded recorder) against the Lean table mod
 dict-merge column order, concat + zero fill, sort by date string, column selection) fed with the group
 pieces produced by the real `date_range` / `get_location` / `get_attrs` under the same draw stream.
 Oracle: row counts per group (hidden marker attribute), row integrity (per-particle tag), zero fill,
-column order (requested / default)."""
-import importlib, io
+column order (requested / default); the complete default header; the rows of the table as a multiset against the
+values the real per-group generators returned *in that very call* (a spy on `make_single_release` / `date_range` /
+`get_location` / `get_attrs`), which judges positions, sampled attributes and GeoJSON properties as well and does
+not need the markers; the written file (when `fname` is given) against the returned table."""
+import importlib, io, os, shutil, tempfile
+from collections import Counter
 import numpy as np
 from .common import Driver, I, unF, RngRecorder, same_bits
 from . import relgen
 from .relgen import name_tok, cell_tok, frame_toks
 
-RULE = ("1..6 groups; num in {0,1,2,3,5,12,40}; location forms point / polygon / multi-polygon / metric offset / GeoJSON (1..3 "
-        "features, 1..2 polygons each, heterogeneous properties); attribute forms const / list / range / gaussian / exponential / "
-        "piecewise / callable / dotted name; implicit and explicit `attrs`; with and without `columns`; flat, list and grouped "
-        "containers; with and without seed. Non-trivial: total num >= 1.")
+RULE = ("1..6 groups; num in {0,1,2,3,5,12,40} (int or numpy integer); location forms point / polygon / multi-polygon / metric offset / "
+        "GeoJSON (1..3 features, 1..2 polygons each, MultiPolygon or Polygon geometry, heterogeneous properties, sometimes a property "
+        "`w` named like a group attribute), coordinates as float/int lists, tuples or numpy arrays; attribute forms const / list / "
+        "range / gaussian / exponential / piecewise / callable / dotted name (lists also as tuple / numpy array, constants also "
+        "numpy floats), attributes named like GeoJSON properties (region, farmid); implicit and explicit `attrs`, the oracle's "
+        "markers explicit or implicit (then groups without any `attrs` mapping); dates as second-resolution strings or (40 %) "
+        "date-only / sub-second strings, date / datetime objects, datetime64[s|ms|D], pairs as list or tuple, a quarter of the later "
+        "groups repeat an earlier group's date span (cross-group ties); with and without `columns` (either all of date, position, "
+        "depth, markers plus extras, or an arbitrary non-empty subset of the available columns incl. GeoJSON properties, possibly "
+        "without date / markers); flat, list (a real list: no global keys) and grouped containers; with and without seed (seed 0 "
+        "in 5 % of the seeded cases); a fifth of the cases write the file (`fname`). Non-trivial: total num >= 1.")
 ASSUMPTIONS = ["rows with equal date strings are compared as multisets (pandas' quicksort is unstable)"]
 SITE = "ladim_plugins/release/makrel.py::make_release"
 SPECIAL = ["num", "date", "location", "attrs"]
+
+
+def attr_names(groups):
+    """every attribute name of the configuration: implicit, explicit, and the GeoJSON feature properties"""
+    out = set()
+    for c in groups:
+        out |= set(c.keys()) - set(SPECIAL)
+        out |= set(c.get("attrs", {}).keys())
+        out |= relgen.geojson_props(c)
+    return out
 
 
 def build_config(rng):
     ng = rng.randrange(1, 7)
     groups = []; forms = []
     for g in range(ng):
-        form, conf = relgen.gen_group(rng, g)
+        form, conf = relgen.gen_group(rng, g, rich=True)
+        if g > 0 and rng.random() < 0.25:
+            conf["date"] = groups[rng.randrange(g)]["date"]         # same span as an earlier group: cross-group ties
         groups.append(conf); forms.append(form)
-    container = rng.choice(["flat", "list", "grouped"]) if ng == 1 else rng.choice(["list", "grouped"])
+    container = rng.choice(["flat", "list", "grouped"]) if ng == 1 else rng.choice(["list", "grouped", "grouped"])
     glob = {}
-    if rng.random() < 0.5:
-        glob["seed"] = rng.randrange(1000)
-    cols = None
-    if rng.random() < 0.4:
-        allc = ["date", "longitude", "latitude", "depth", "grp", "tag"]
-        extra = sorted(set(k for c in groups for k in list(c.keys()) + list(c.get("attrs", {}).keys())) - set(SPECIAL) - set(allc))
-        cols = allc + rng.sample(extra, rng.randrange(0, len(extra) + 1))
-        rng.shuffle(cols)
-        glob["columns"] = cols
+    if container != "list":                      # a list of groups cannot carry global keys
+        if rng.random() < 0.5:
+            glob["seed"] = rng.randrange(1000) if rng.random() >= 0.05 else 0
+        if rng.random() < 0.5:
+            allc = ["date", "longitude", "latitude", "depth", "grp", "tag"]
+            extra = sorted(attr_names(groups) - set(allc))
+            if rng.random() < 0.6:
+                cols = allc + rng.sample(extra, rng.randrange(0, len(extra) + 1))
+            else:                                # any non-empty selection, possibly without date / position / markers
+                pool = allc + extra
+                cols = rng.sample(pool, rng.randrange(1, len(pool) + 1))
+            rng.shuffle(cols)
+            glob["columns"] = cols
     return groups, forms, container, glob
 
 
@@ -45,7 +72,7 @@ def wrap(groups, container, glob):
     if container == "flat":
         c = dict(gs[0]); c.update(glob); return c
     if container == "list" and not glob:
-        return gs
+        return gs                                # build_config leaves glob empty for the list container
     d = dict(glob); d["groups"] = gs
     return d
 
@@ -97,7 +124,180 @@ def canon_cell(v):
     return cell_tok(v)
 
 
+class Spy:
+    """records, during one real `make_release` call, what the per-group generators returned for each group
+    (copies taken at return time: `make_single_release` pops keys from the location mapping).  The functions are
+    looked up in the module at call time, so wrapping them in the module namespace observes the real data flow."""
+    NAMES = ("make_single_release", "date_range", "get_location", "get_attrs")
+
+    def __init__(self, mk):
+        self.mk = mk; self.recs = []; self.cur = None; self.saved = {}
+
+    def __enter__(self):
+        mk = self.mk; spy = self
+        self.saved = {n: getattr(mk, n) for n in self.NAMES}
+
+        def msr(conf, *a, **k):
+            rec = dict(conf=conf, date=None, loc=None, attrs=None); spy.recs.append(rec)
+            prev, spy.cur = spy.cur, rec
+            try:
+                return spy.saved["make_single_release"](conf, *a, **k)
+            finally:
+                spy.cur = prev
+
+        def dr(*a, **k):
+            out = spy.saved["date_range"](*a, **k)
+            if spy.cur is not None and spy.cur["date"] is None:
+                spy.cur["date"] = list(out)
+            return out
+
+        def gl(*a, **k):
+            out = spy.saved["get_location"](*a, **k)
+            if spy.cur is not None and spy.cur["loc"] is None:
+                spy.cur["loc"] = {kk: list(v) for kk, v in out.items()}
+            return out
+
+        def ga(*a, **k):
+            out = spy.saved["get_attrs"](*a, **k)
+            if spy.cur is not None and spy.cur["attrs"] is None:
+                spy.cur["attrs"] = {kk: list(v) for kk, v in out.items()}
+            return out
+
+        mk.make_single_release = msr; mk.date_range = dr; mk.get_location = gl; mk.get_attrs = ga
+        return self
+
+    def __exit__(self, *a):
+        for n, f in self.saved.items():
+            setattr(self.mk, n, f)
+        return False
+
+    def by_group(self, groups):
+        """group index -> the values generated for it: column name -> list (None if the record is incomplete).
+        A group is recognised by its marker attribute, not by the order of the calls."""
+        out = {}
+        for rec in self.recs:
+            conf = rec["conf"]
+            try:
+                m = conf.get("attrs", {}).get("grp", conf.get("grp")) if isinstance(conf.get("attrs", {}), dict) else conf.get("grp")
+                g = int(m) - 1
+            except Exception:
+                continue
+            if not (0 <= g < len(groups)) or g in out:
+                out[g] = None; continue
+            if rec["date"] is None or rec["loc"] is None or rec["attrs"] is None:
+                out[g] = None; continue
+            # the values of a particle: its date, what comes with its location, its attributes.  An attribute the
+            # configuration defines (constant repeated, list verbatim, ... - C04) is that attribute of the particle,
+            # also when the GeoJSON feature has a property of the same name.
+            e = dict(date=rec["date"]); e.update(rec["loc"]); e.update(rec["attrs"])
+            out[g] = e
+        return out
+
+
+def ckey(v):
+    """a table cell, canonical for comparison: text as text; a missing value (None / NaN) is the fill value 0 of
+    `fillna(0)`; numbers by value (7 == 7.0 == True is what a mixed pandas column gives back)"""
+    if isinstance(v, str):
+        return ("s", v)
+    if v is None:
+        return ("n", 0.0)
+    try:
+        f = float(v)
+    except Exception:
+        return ("r", repr(v))
+    if f != f:
+        return ("n", 0.0)
+    return ("n", f + 0.0)
+
+
+def check_rows(ctx, res, hdr, nrows, groups, gen, cs):
+    """the rows of the table are exactly the rows of the particles: for every group and every particle one row
+    holding that particle's date, position and attributes (0 where its group defines no such attribute) -
+    compared as multisets, so neither the row order nor the markers matter"""
+    want = []
+    for g, conf in enumerate(groups):
+        e = gen.get(g)
+        n = int(conf["num"])
+        if n == 0:
+            continue
+        if e is None or any(len(e[c]) != n for c in e):
+            return None                                   # generators not observed for this group: nothing to compare with
+        for i in range(n):
+            want.append((g, i, tuple(ckey(e[c][i]) if c in e else ("n", 0.0) for c in hdr)))
+    have = [tuple(ckey(res[c][r]) for c in hdr) for r in range(nrows)]
+    cw = Counter(w for _, _, w in want); ch = Counter(have)
+    if cw == ch:
+        ctx.oracle(True, "C01.row_integrity", SITE, "", cs)
+        return True
+    lost = [(g, i, w) for g, i, w in want if ch[w] < cw[w]]
+    extra = [h for h in have if cw[h] < ch[h]]
+    # name the clause: a lost row that differs from an unexpected row only under columns its group does not define
+    # is a fill-value defect, anything else a row that does not hold one particle's values
+    pred = "C01.row_integrity"; detail = None
+    for g, i, w in lost[:50]:
+        e = gen[g]
+        for h in extra:
+            diff = [j for j in range(len(hdr)) if w[j] != h[j]]
+            if diff and all(hdr[j] not in e for j in diff):
+                pred = "C01.missing_attr_not_zero"
+                detail = "group %d does not define %s but the row of its particle %d has %r there" % (
+                    g, [hdr[j] for j in diff], i, [h[j][1] for j in diff])
+                break
+        if detail:
+            break
+    if detail is None:
+        if lost:
+            g, i, w = lost[0]
+            near = min(extra, key=lambda h: sum(1 for j in range(len(hdr)) if w[j] != h[j])) if extra else None
+            diff = [hdr[j] for j in range(len(hdr)) if near is not None and w[j] != near[j]]
+            detail = ("no row holds the values of particle %d of group %d (%d rows lost, %d unexpected); columns %r: expected %r; the "
+                      "closest row differs in %r: %r" % (i, g, len(lost), len(extra), hdr, [x[1] for x in w], diff,
+                                                         [near[hdr.index(c)][1] for c in diff] if near is not None else None))
+        else:
+            detail = "%d rows that belong to no particle, e.g. %r under columns %r" % (len(extra), [x[1] for x in extra[0]], hdr)
+    ctx.oracle(False, pred, SITE, detail, cs)
+    return False
+
+
+def check_file(ctx, fname, res, hdr, nrows, total, cs):
+    """the file written when `fname` is given: tab-separated, no header, one line per requested particle, one field
+    per column, the same values as the returned table"""
+    if not os.path.exists(fname):
+        ctx.oracle(False, "C01.file.shape", SITE, "fname given but no file written", cs); return
+    with open(fname, encoding="utf8") as f:
+        lines = [l.rstrip("\n").split("\t") for l in f.read().split("\n") if l != ""]
+    ok = len(lines) == total and all(len(l) == len(hdr) for l in lines)
+    ctx.oracle(ok, "C01.file.shape", SITE, "file has %d lines (field counts %r) for sum(num)=%d and %d columns" % (
+        len(lines), sorted(set(len(l) for l in lines)), total, len(hdr)), cs)
+    if not ok or nrows != total:
+        return
+    for r, l in enumerate(lines):
+        for j, k in enumerate(hdr):
+            v = res[k][r]
+            if isinstance(v, str):
+                good = l[j] == v                      # the generated texts contain no tab, quote or line break
+            elif isinstance(v, (bool, np.bool_)):
+                good = l[j] == str(bool(v))           # pandas writes booleans as True / False
+            else:
+                try:
+                    good = float(l[j]) == float(v)    # pandas writes the shortest round-trip repr: exact
+                except ValueError:
+                    good = False
+            if not good:
+                ctx.oracle(False, "C01.file.row_integrity", SITE, "line %d column %s: file %r, table %r" % (r, k, l[j], v), dict(cs, row=r, column=k))
+                return
+    ctx.oracle(True, "C01.file.row_integrity", SITE, "", cs)
+
+
 def run(ctx):
+    tmp = tempfile.mkdtemp(prefix="verif_c01_")
+    try:
+        _run(ctx, tmp)
+    finally:
+        shutil.rmtree(tmp, ignore_errors=True)
+
+
+def _run(ctx, tmp):
     mk = importlib.import_module("ladim_plugins.release.makrel")
     drv = Driver()
     if getattr(ctx, "widened", False):
@@ -106,15 +306,36 @@ def run(ctx):
     for c in range(ctx.n(150, 3000)):
         groups, forms, container, glob = build_config(ctx.rng)
         seed = ctx.sub_seed()
-        total = sum(g["num"] for g in groups)
-        cs = dict(container=container, glob=glob, forms=forms,
+        fname = os.path.join(tmp, "out%d.rls" % c) if ctx.rng.random() < 0.2 else None
+        total = int(sum(g["num"] for g in groups))
+        cs = dict(container=container, glob=glob, forms=forms, fname=bool(fname),
                   groups=[{k: (v if not callable(v) else "<callable>") for k, v in g.items()} for g in groups])
         ctx.case(key=repr(cs), nontrivial=total > 0, sample=dict(container=container, forms=forms, nums=[g["num"] for g in groups], glob=glob) if c < 3 else None)
         for f in forms: ctx.branch("form." + f)
         ctx.branch("container." + container); ctx.branch("columns" if "columns" in glob else "default_columns"); ctx.size("groups", len(groups))
+        if "columns" in glob:
+            if "date" not in glob["columns"]: ctx.branch("columns.without_date")
+            if not ("grp" in glob["columns"] and "tag" in glob["columns"]): ctx.branch("columns.without_markers")
+            if any(k in relgen.geojson_props(g) for g in groups for k in glob["columns"]): ctx.branch("columns.geojson_property")
+        if glob.get("seed", None) == 0: ctx.branch("seed.zero")
+        if fname: ctx.branch("fname")
+        for g in groups:
+            ctx.branch("markers.explicit" if "grp" in g.get("attrs", {}) else "markers.implicit")
+            if "attrs" not in g: ctx.branch("group.no_attrs_mapping")
+            if not isinstance(g["num"], int): ctx.branch("num.numpy_integer")
+            if not all(isinstance(d, str) and len(d) == 19 for d in (g["date"] if isinstance(g["date"], list) else [g["date"]])):
+                ctx.branch("date.other_type_or_resolution")
+            if not isinstance(g["location"], (str, dict)) and not (isinstance(g["location"], list) and all(isinstance(x, (float, list)) for x in g["location"])):
+                ctx.branch("location.other_container_or_int")
+            cfg = set(g.keys()) | set(g.get("attrs", {}).keys())
+            if cfg & relgen.geojson_props(g): ctx.branch("collision.attr_and_own_geojson_property")
+            if any(isinstance(v, (tuple, np.ndarray, np.floating)) for v in list(g.values()) + list(g.get("attrs", {}).values())):
+                ctx.branch("attr.tuple_or_numpy")
+        if len(set(repr(g["date"]) for g in groups)) < len(groups): ctx.branch("date.shared_by_groups")
         try:
-            with RngRecorder(seed) as rec:
-                res = mk.make_release(wrap(groups, container, glob))
+            with Spy(mk) as spy:
+                with RngRecorder(seed) as rec:
+                    res = mk.make_release(wrap(groups, container, glob), fname) if fname else mk.make_release(wrap(groups, container, glob))
         except Exception as e:
             ctx.oracle(False, "C01.make_release.raises", SITE, "valid configuration raised %r" % (e,), cs)
             continue
@@ -126,6 +347,22 @@ def run(ctx):
             ctx.oracle(hdr == glob["columns"], "C01.columns_requested", SITE, "header %r, requested %r" % (hdr, glob["columns"]), cs)
         else:
             ctx.oracle(hdr[:4] == ["date", "longitude", "latitude", "depth"], "C01.columns_default", SITE, "header %r" % (hdr,), cs)
+        names = attr_names(groups)
+        if "columns" not in glob:
+            # "date, longitude, latitude, depth followed by the attributes": nothing missing, nothing else
+            wantset = {"date", "longitude", "latitude", "depth"} | names
+            ctx.oracle(set(hdr) == wantset and len(hdr) == len(wantset), "C01.columns_default_set", SITE,
+                       "header %r: missing %r, unexpected %r" % (hdr, sorted(wantset - set(hdr)), sorted(set(hdr) - wantset)), cs)
+        if nrows == total and all(len(v) == nrows for v in res.values()):
+            seen = check_rows(ctx, res, hdr, nrows, groups, spy.by_group(groups), cs)
+            if seen is None:
+                ctx.branch("spy.incomplete")
+                if not getattr(ctx, "_c01_spy_note", False):
+                    ctx._c01_spy_note = True
+                    ctx.note("C01: make_release no longer goes through make_single_release / date_range / get_location / get_attrs for every group; "
+                             "the multiset row oracle had nothing to compare with")
+        if fname:
+            check_file(ctx, fname, res, hdr, nrows, total, cs)
         if "grp" in res and "tag" in res and nrows == total:
             grp = np.array(res["grp"]); tag = np.array(res["tag"])
             for g, conf in enumerate(groups):
@@ -139,6 +376,7 @@ def run(ctx):
                 except Exception:
                     pass
                 alln = set(k for k in list(conf.keys()) + list(conf.get("attrs", {}).keys())) - set(SPECIAL)
+                gjp = relgen.geojson_props(conf)
                 for i in range(conf["num"]):
                     rows = np.flatnonzero(tag == g * 1000000 + i)
                     ok = len(rows) == 1 and grp[rows[0]] == g + 1
@@ -149,23 +387,25 @@ def run(ctx):
                     if exp_dates is not None and "date" in res:
                         ctx.oracle(res["date"][r] == exp_dates[i], "C01.row_integrity", SITE,
                                    "particle %d of group %d has date %r, its release time is %r" % (i, g, res["date"][r], exp_dates[i]), dict(cs, group=g, particle=i))
-                    if forms[g] == "point" and "longitude" in res:
-                        ctx.oracle(res["longitude"][r] == conf["location"][0] and res["latitude"][r] == conf["location"][1],
+                    if forms[g] == "point" and ("longitude" in res or "latitude" in res):
+                        # (a `columns` selection may hold only one of the two coordinates)
+                        ctx.oracle(("longitude" not in res or res["longitude"][r] == conf["location"][0]) and
+                                   ("latitude" not in res or res["latitude"][r] == conf["location"][1]),
                                    "C01.row_integrity", SITE, "particle of a point group has another position", dict(cs, group=g, particle=i))
                     for nm in ("depth", "w", "age", "stage", "id2", "len", "q", "label", "flag", "name", "region", "farmid"):
                         if nm not in res:
                             continue
-                        if nm in ("name", "region", "farmid") and forms[g] == "geojson":
-                            continue        # comes with the location (checked by C03)
                         spec = conf.get("attrs", {}).get(nm, conf.get(nm, None))
+                        if spec is None and nm in gjp:
+                            continue        # comes with this group's location (checked by C03 and by check_rows)
                         if spec is None:
                             want = 0.0 if nm != "depth" else 0.0
                             ctx.oracle(res[nm][r] == want, "C01.missing_attr_not_zero", SITE,
                                        "group %d does not define %s but its particle has %r" % (g, nm, res[nm][r]), dict(cs, group=g, particle=i))
-                        elif isinstance(spec, list) and len(spec) == conf["num"] and not (len(spec) == 2 and conf["num"] != 2):
+                        elif isinstance(spec, (list, tuple, np.ndarray)) and len(spec) == conf["num"] and not (len(spec) == 2 and conf["num"] != 2):
                             ctx.oracle(res[nm][r] == spec[i], "C01.row_integrity", SITE,
                                        "attribute %s of particle %d of group %d is %r, given %r" % (nm, i, g, res[nm][r], spec[i]), dict(cs, group=g, particle=i))
-                        elif not isinstance(spec, (list, dict, str)) and not callable(spec):
+                        elif not isinstance(spec, (list, tuple, np.ndarray, dict, str)) and not callable(spec):
                             ctx.oracle(res[nm][r] == spec, "C01.row_integrity", SITE, "constant attribute %s changed" % nm, dict(cs, group=g, particle=i))
         if drv.available:
             try:
